@@ -1,9 +1,137 @@
-"""library models: petgraph -- filled in by the scheduling tier"""
+"""library models: petgraph GraphMap / Graph (adjacency lists with the interpreted Eq of node values)"""
 from values import *
+from lib_core import val_eq
+
 M = {}
 G = {}
+
+
+def model(*names):
+    def deco(f):
+        for n in names: M[n] = f
+        return f
+    return deco
 
 
 def install(world):
     world.models.update(M)
     world.generic_models.update(G)
+
+
+class GraphObj:
+    """GraphMap<N, E, Ty>: nodes in insertion order, edges [a, b, weight] in insertion order"""
+    __slots__ = ("nodes", "edges", "directed")
+
+    def __init__(self):
+        self.nodes, self.edges, self.directed = [], [], True
+
+    def __repr__(self):
+        return f"Graph(n={len(self.nodes)}, e={len(self.edges)})"
+
+
+def _same(m, a, b):
+    return m.branch_bool(val_eq(m, a, b))
+
+
+def _find_node(m, g, n):
+    for i, x in enumerate(g.nodes):
+        if _same(m, x, n): return i
+    return -1
+
+
+def _find_edge(m, g, a, b):
+    for i, e in enumerate(g.edges):
+        if _same(m, e[0], a) and _same(m, e[1], b): return i
+    return -1
+
+
+@model("GraphMap::new", "petgraph::graphmap::GraphMap::new", "GraphMap::with_capacity", "<GraphMap as Default>::default")
+def gm_new(m, *a): return GraphObj()
+
+
+@model("GraphMap::add_node", "petgraph::graphmap::GraphMap::add_node")
+def gm_add_node(m, r, n):
+    g = deref(r)
+    if _find_node(m, g, n) < 0: g.nodes.append(n)
+    return n
+
+
+@model("GraphMap::add_edge", "petgraph::graphmap::GraphMap::add_edge")
+def gm_add_edge(m, r, a, b, w):
+    g = deref(r)
+    for n in (a, b):
+        if _find_node(m, g, n) < 0: g.nodes.append(n)
+    i = _find_edge(m, g, a, b)
+    if i >= 0:
+        old = g.edges[i][2]; g.edges[i][2] = w
+        return SOME(old)
+    g.edges.append([a, b, w])
+    return NONE()
+
+
+@model("GraphMap::edge_weight_mut", "GraphMap::edge_weight", "petgraph::graphmap::GraphMap::edge_weight_mut", "petgraph::graphmap::GraphMap::edge_weight")
+def gm_edge_weight(m, r, a, b):
+    g = deref(r)
+    i = _find_edge(m, g, a, b)
+    return SOME(Ref(g.edges[i], 2)) if i >= 0 else NONE()
+
+
+@model("GraphMap::contains_node")
+def gm_contains_node(m, r, n): return _find_node(m, deref(r), n) >= 0
+
+
+@model("GraphMap::contains_edge")
+def gm_contains_edge(m, r, a, b): return _find_edge(m, deref(r), a, b) >= 0
+
+
+M["GraphMap::node_count"] = lambda m, r: len(deref(r).nodes)
+M["GraphMap::edge_count"] = lambda m, r: len(deref(r).edges)
+M["GraphMap::nodes"] = lambda m, r: m.world.list_iter(list(deref(r).nodes))
+M["GraphMap::all_edges"] = lambda m, r: m.world.list_iter([TUP(e[0], e[1], Ref(e, 2)) for e in deref(r).edges])
+
+
+def _is_outgoing(d):
+    d = deref(d)
+    return d.tag == 0       # petgraph::Direction { Outgoing = 0, Incoming = 1 }
+
+
+@model("GraphMap::neighbors_directed")
+def gm_neighbors_directed(m, r, n, d):
+    g = deref(r)
+    out = []
+    for e in g.edges:
+        if _is_outgoing(d):
+            if _same(m, e[0], n): out.append(e[1])
+        elif _same(m, e[1], n): out.append(e[0])
+    return m.world.list_iter(out)
+
+
+@model("GraphMap::neighbors")
+def gm_neighbors(m, r, n):
+    g = deref(r)
+    return m.world.list_iter([e[1] for e in g.edges if _same(m, e[0], n)])
+
+
+@model("GraphMap::edges_directed")
+def gm_edges_directed(m, r, n, d):
+    g = deref(r)
+    out = []
+    for e in g.edges:
+        if _is_outgoing(d):
+            if _same(m, e[0], n): out.append(TUP(e[0], e[1], Ref(e, 2)))
+        elif _same(m, e[1], n): out.append(TUP(e[0], e[1], Ref(e, 2)))
+    return m.world.list_iter(out)
+
+
+@model("GraphMap::edges")
+def gm_edges(m, r, n):
+    g = deref(r)
+    return m.world.list_iter([TUP(e[0], e[1], Ref(e, 2)) for e in g.edges if _same(m, e[0], n)])
+
+
+@model("GraphMap::remove_edge")
+def gm_remove_edge(m, r, a, b):
+    g = deref(r)
+    i = _find_edge(m, g, a, b)
+    if i < 0: return NONE()
+    return SOME(g.edges.pop(i)[2])
